@@ -329,7 +329,21 @@ func (g *Gen) twins(c *Case) (string, string) {
 		}
 		return x
 	}
-	k := g.r.Intn(4)
+	k := g.r.Intn(5)
+	if k == 4 {
+		// one twin is narrower (select merging applies), possibly with an offset
+		extra := g.matcher()
+		narrow := core
+		if strings.HasSuffix(core, "}") {
+			narrow = core[:len(core)-1] + "," + extra + "}"
+		} else {
+			narrow = core + "{" + extra + "}"
+		}
+		if g.chance(0.5) {
+			return "sum(" + narrow + a + ")", "sum(" + core + b + ")"
+		}
+		return narrow + a, core + b
+	}
 	if k == 1 {
 		r := durStr(g.pickI(60000, 120000, 300000))
 		r2 := durStr(g.pickI(60000, 120000, 300000, 600000))
@@ -399,7 +413,9 @@ func (g *Gen) funcExpr(c *Case, d int) string {
 }
 
 func (g *Gen) histArg(c *Case, d int) string {
-	switch g.r.Intn(4) {
+	switch g.r.Intn(5) {
+	case 4:
+		return `{__name__=~"._bucket"}`
 	case 0:
 		return "h_bucket"
 	case 1:
@@ -543,6 +559,10 @@ func (g *Gen) dataset(c *Case, ranges []int64, withHist bool) {
 				ls = append(ls, [2]string{ln, g.pick(labelValues...)})
 			}
 		}
+		if g.chance(0.12) {
+			// a label name that sorts before __name__
+			ls = append(ls, [2]string{"Z", g.pick(labelValues...)})
+		}
 		sort.Slice(ls, func(i, j int) bool { return ls[i][0] < ls[j][0] })
 		key := fmt.Sprint(ls)
 		if seen[key] {
@@ -553,6 +573,10 @@ func (g *Gen) dataset(c *Case, ranges []int64, withHist bool) {
 	}
 	if withHist {
 		groups := 1 + g.r.Intn(2)
+		twoHist := g.chance(0.3)
+		if twoHist {
+			groups = 2
+		}
 		for gi := 0; gi < groups; gi++ {
 			bounds := []string{"0.1", "0.5", "1", "5", "+Inf"}
 			if g.chance(0.2) {
@@ -567,7 +591,11 @@ func (g *Gen) dataset(c *Case, ranges []int64, withHist bool) {
 			ts := g.timestamps(c, ranges)
 			cum := make([]float64, len(ts))
 			for _, b := range bounds {
-				ls := [][2]string{{"__name__", "h_bucket"}, {"a", labelValues[gi]}, {"le", b}}
+				hname := "h_bucket"
+				if gi == 1 && twoHist {
+					hname = "g_bucket"
+				}
+				ls := [][2]string{{"__name__", hname}, {"a", labelValues[gi%2]}, {"le", b}}
 				s := SeriesJ{Labels: ls}
 				for k, t := range ts {
 					cum[k] += float64(g.r.Intn(5)) * float64(k+1)
@@ -677,6 +705,43 @@ func (g *Gen) Case(i int) *Case {
 		c.Query = g.aggExpr(c, 1+g.r.Intn(2))
 	case "binary":
 		c.Query = g.binExpr(c, 1+g.r.Intn(2))
+		if g.chance(0.08) {
+			op := g.pick("+", "-", "*", "== bool", "> bool", "/")
+			c.Query = fmt.Sprintf("%s %s on (__name__, %s) (%s offset %s)", g.selectorCore("m"), op, g.pick("a", "b", "a, b"), g.selectorCore("m"), durStr(g.pickI(0, 30000, 60000)))
+		}
+	case "twins":
+		x, y := g.twins(c)
+		op := g.pick("+", "-", "/", "*", "> bool", "==")
+		if g.chance(0.5) {
+			op += " on (a, b, c)"
+		}
+		c.Query = x + " " + op + " " + y
+		if c.Instant() && g.chance(0.8) {
+			c.Step = g.pickI(15000, 30000, 60000)
+			c.End = c.Start + c.Step*int64(3+g.r.Intn(30))
+			g.step = c.Step
+		}
+	case "subms":
+		// short windows whose bounds carry sub-millisecond parts, start's larger than end's
+		c.Step = g.pickI(1000, 5000, 15000)
+		n := int64(2 + g.r.Intn(9))
+		c.End = c.Start + (n-1)*c.Step
+		c.StartNs = 500000 + g.r.Int63n(499999)
+		c.EndNs = g.r.Int63n(400000)
+		g.step = c.Step
+		sel := g.selectorCore(g.metric())
+		switch g.r.Intn(5) {
+		case 0:
+			c.Query = sel + " + time()"
+		case 1:
+			c.Query = fmt.Sprintf("%s - %s @ %d.000", sel, sel, (c.Start+c.Step)/1000)
+		case 2:
+			c.Query = fmt.Sprintf("%s > bool scalar(%s @ %d.000)", sel, sel, (c.Start+2*c.Step)/1000)
+		case 3:
+			c.Query = "clamp_min(" + sel + ", time())"
+		default:
+			c.Query = sel + " * pi() + time()"
+		}
 	case "func":
 		if g.chance(0.3) {
 			c.Query = g.scalarExpr(c, 1+g.r.Intn(2))
